@@ -11,14 +11,16 @@ import sys
 import time
 from pathlib import Path
 
-VERIF = Path("/verif")
-REPO = Path("/repo")
+# relocatable for my own exploration (snapshot copies run against a scratch worktree); the registered commands use /verif and /repo
+VERIF = Path(os.environ.get("QV_VERIF") or Path(__file__).resolve().parents[1])
+REPO = Path(os.environ.get("QV_REPO") or "/repo")
 COQ = VERIF / "coq"
 WORK = VERIF / "_work"
 PY = "/venv/bin/python"
 IMPL_ENV = dict(
     os.environ,
-    PYTHONPATH="/repo/src",
+    PYTHONPATH=str(REPO / "src"),
+    QV_REPO=str(REPO),
     PYTHONHASHSEED="0",
     PYTHONDONTWRITEBYTECODE="1",
     QUANSINO_VERIF="1",
